@@ -73,6 +73,8 @@ func init() {
 		}
 		cts = append(cts, ct)
 	}
+	// offsets of the larger ciphertext; the leading ones (id, macData, C1, policy) are the same in every
+	// v1.3.8 ciphertext, on the other valid encodings the later ones are just further byte positions to overwrite
 	lf := tknCtLenFields(cts[1])
 
 	// the repository's golden files: old (v1.3.7) and new ciphertext format + the matching attribute key
